@@ -212,6 +212,15 @@ Definition sparse_coll := (bytes * list (bytes * list ssig))%type.  (* PubKeyHas
 Record rentry := mk_rentry { re_phs : list ph; re_pv : option sparse_coll; re_pc : option sparse_coll }.
 Definition empty_rentry : rentry := mk_rentry [] None None.
 
+(** One store write call (round store, committed-header store, mirror store), as issued by the
+    kernel.  The log is what a crash truncates (C10). *)
+Inductive wr :=
+| WNhr (x : N * N * N * N)
+| WHdr (h : N) (x : hdr * cproof)
+| WPH (p : ph)
+| WPV (h r : N) (c : sparse_coll)
+| WPC (h r : N) (c : sparse_coll).
+
 Record kstate := mk_k {
   k_init_h : N; k_init_vs : valset;
   k_com : view; k_vot : view; k_nxt : view;
@@ -220,17 +229,21 @@ Record kstate := mk_k {
   st_hdrs : list (N * (hdr * cproof));          (* committed header store *)
   st_rounds : list (N * N * rentry);            (* round store *)
   st_replayed : list hdr;
-  st_vals : list (bytes * list N)               (* validator store: pubkey hash -> keys *)
+  st_vals : list (bytes * list N);              (* validator store: pubkey hash -> keys *)
+  st_log : list wr                              (* every store write call, in the order issued *)
 }.
 
-Definition set_com (s : kstate) (v : view) := mk_k (k_init_h s) (k_init_vs s) v (k_vot s) (k_nxt s) (k_chdr s) (st_nhr s) (st_hdrs s) (st_rounds s) (st_replayed s) (st_vals s).
-Definition set_vot (s : kstate) (v : view) := mk_k (k_init_h s) (k_init_vs s) (k_com s) v (k_nxt s) (k_chdr s) (st_nhr s) (st_hdrs s) (st_rounds s) (st_replayed s) (st_vals s).
-Definition set_nxt (s : kstate) (v : view) := mk_k (k_init_h s) (k_init_vs s) (k_com s) (k_vot s) v (k_chdr s) (st_nhr s) (st_hdrs s) (st_rounds s) (st_replayed s) (st_vals s).
-Definition set_chdr (s : kstate) (h : option hdr) := mk_k (k_init_h s) (k_init_vs s) (k_com s) (k_vot s) (k_nxt s) h (st_nhr s) (st_hdrs s) (st_rounds s) (st_replayed s) (st_vals s).
-Definition set_nhr (s : kstate) (x : N * N * N * N) := mk_k (k_init_h s) (k_init_vs s) (k_com s) (k_vot s) (k_nxt s) (k_chdr s) x (st_hdrs s) (st_rounds s) (st_replayed s) (st_vals s).
-Definition set_hdrs (s : kstate) (x : list (N * (hdr * cproof))) := mk_k (k_init_h s) (k_init_vs s) (k_com s) (k_vot s) (k_nxt s) (k_chdr s) (st_nhr s) x (st_rounds s) (st_replayed s) (st_vals s).
-Definition set_rounds (s : kstate) (x : list (N * N * rentry)) := mk_k (k_init_h s) (k_init_vs s) (k_com s) (k_vot s) (k_nxt s) (k_chdr s) (st_nhr s) (st_hdrs s) x (st_replayed s) (st_vals s).
-Definition set_replayed (s : kstate) (x : list hdr) := mk_k (k_init_h s) (k_init_vs s) (k_com s) (k_vot s) (k_nxt s) (k_chdr s) (st_nhr s) (st_hdrs s) (st_rounds s) x (st_vals s).
+Definition set_com (s : kstate) (v : view) := mk_k (k_init_h s) (k_init_vs s) v (k_vot s) (k_nxt s) (k_chdr s) (st_nhr s) (st_hdrs s) (st_rounds s) (st_replayed s) (st_vals s) (st_log s).
+Definition set_vot (s : kstate) (v : view) := mk_k (k_init_h s) (k_init_vs s) (k_com s) v (k_nxt s) (k_chdr s) (st_nhr s) (st_hdrs s) (st_rounds s) (st_replayed s) (st_vals s) (st_log s).
+Definition set_nxt (s : kstate) (v : view) := mk_k (k_init_h s) (k_init_vs s) (k_com s) (k_vot s) v (k_chdr s) (st_nhr s) (st_hdrs s) (st_rounds s) (st_replayed s) (st_vals s) (st_log s).
+Definition set_chdr (s : kstate) (h : option hdr) := mk_k (k_init_h s) (k_init_vs s) (k_com s) (k_vot s) (k_nxt s) h (st_nhr s) (st_hdrs s) (st_rounds s) (st_replayed s) (st_vals s) (st_log s).
+Definition set_nhr (s : kstate) (x : N * N * N * N) := mk_k (k_init_h s) (k_init_vs s) (k_com s) (k_vot s) (k_nxt s) (k_chdr s) x (st_hdrs s) (st_rounds s) (st_replayed s) (st_vals s) (st_log s).
+Definition set_hdrs (s : kstate) (x : list (N * (hdr * cproof))) := mk_k (k_init_h s) (k_init_vs s) (k_com s) (k_vot s) (k_nxt s) (k_chdr s) (st_nhr s) x (st_rounds s) (st_replayed s) (st_vals s) (st_log s).
+Definition set_rounds (s : kstate) (x : list (N * N * rentry)) := mk_k (k_init_h s) (k_init_vs s) (k_com s) (k_vot s) (k_nxt s) (k_chdr s) (st_nhr s) (st_hdrs s) x (st_replayed s) (st_vals s) (st_log s).
+Definition set_replayed (s : kstate) (x : list hdr) := mk_k (k_init_h s) (k_init_vs s) (k_com s) (k_vot s) (k_nxt s) (k_chdr s) (st_nhr s) (st_hdrs s) (st_rounds s) x (st_vals s) (st_log s).
+
+Definition log_w (s : kstate) (w : wr) : kstate :=
+  mk_k (k_init_h s) (k_init_vs s) (k_com s) (k_vot s) (k_nxt s) (k_chdr s) (st_nhr s) (st_hdrs s) (st_rounds s) (st_replayed s) (st_vals s) (st_log s ++ [w]).
 
 Definition kpos_of (s : kstate) : kpos :=
   mk_kpos (v_h (k_vot s)) (v_r (k_vot s)) (v_h (k_com s)) (v_r (k_com s)).
@@ -288,7 +301,8 @@ Definition rs_overwrite_pc (rs : list (N * N * rentry)) (h r : N) (c : sparse_co
 
 (** * Kernel: observers, round changes, shift *)
 Definition update_observers (s : kstate) : kstate :=
-  set_nhr s (v_h (k_vot s), v_r (k_vot s), v_h (k_com s), v_r (k_com s)).
+  let x := (v_h (k_vot s), v_r (k_vot s), v_h (k_com s), v_r (k_com s)) in
+  log_w (set_nhr s x) (WNhr x).
 
 (** incrementVotingRound: swap Voting/NextRound, reset the new NextRound for the same height. *)
 Definition increment_voting_round (s : kstate) : kstate :=
@@ -314,7 +328,7 @@ Definition shift_voting_to_committing (s : kstate) (voted : hdr) : kstate :=
   let vot := mk_view newh 0 nv [] [] [] pcp (mk_sum avail 0 0 [] [] [] []) 1 in
   let nxt := mk_view newh 1 nv [] [] [] pcp (mk_sum avail 0 0 [] [] [] []) 1 in
   let s1 := set_chdr (set_nxt (set_vot (set_com s com) vot) nxt) (Some voted) in
-  let s2 := set_hdrs s1 (hstore_set (st_hdrs s1) (hd_height voted) (voted, pcp)) in
+  let s2 := log_w (set_hdrs s1 (hstore_set (st_hdrs s1) (hd_height voted) (voted, pcp))) (WHdr (hd_height voted) (voted, pcp)) in
   update_observers s2.
 
 (** checkVotingPrecommitViewShift *)
@@ -369,9 +383,9 @@ Definition backfill_commit (s : kstate) (p : ph) : kstate :=
   if any then
     let com1 := with_pc com pc' in
     let com' := bump (with_sum com1 (sum_set_precommits (v_sum com1) (vs_pows (v_vals com1)) pc')) in
-    let rs := rs_overwrite_pc (st_rounds s) (sub64 (hd_height (ph_hdr p)) 1) (cp_round pcp)
-                (map_to_sparse (vs_pkh (v_vals com)) pc') in
-    set_rounds (set_com s com') rs
+    let coll := map_to_sparse (vs_pkh (v_vals com)) pc' in
+    let rs := rs_overwrite_pc (st_rounds s) (sub64 (hd_height (ph_hdr p)) 1) (cp_round pcp) coll in
+    log_w (set_rounds (set_com s com') rs) (WPC (sub64 (hd_height (ph_hdr p)) 1) (cp_round pcp) coll)
   else set_com s (with_pc com pc').
 
 Definition add_ph (s : kstate) (p : ph) : res kstate :=
@@ -381,7 +395,7 @@ Definition add_ph (s : kstate) (p : ph) : res kstate :=
   let v := get_view s vid in
   if existsb (fun q => sigd_eqb (ph_sig q) (ph_sig p)) (v_phs v) then Ok s else
   let s1 := put_view s vid (bump (with_phs v (v_phs v ++ [p]))) in
-  let s2 := set_rounds s1 (rs_save_ph (st_rounds s1) p) in
+  let s2 := log_w (set_rounds s1 (rs_save_ph (st_rounds s1) p)) (WPH p) in
   if negb ((vid =? ViewIDVoting) || (vid =? ViewIDNextRound)) then Ok s2 else
   let s3 := backfill_commit s2 p in
   if (vid =? ViewIDVoting) then
@@ -503,8 +517,9 @@ Definition apply_votes (kind : N) (s : kstate) (vid : N) (h r : N) (ups : pmap) 
   let v2 := bump (with_sum v1 sm') in
   let s1 := put_view s vid v2 in
   let coll := map_to_sparse (vs_pkh (v_vals v2)) votes' in
-  let s2 := set_rounds s1 (if kind =? KPrevote then rs_overwrite_pv (st_rounds s1) h r coll
-                           else rs_overwrite_pc (st_rounds s1) h r coll) in
+  let s2 := log_w (set_rounds s1 (if kind =? KPrevote then rs_overwrite_pv (st_rounds s1) h r coll
+                                  else rs_overwrite_pc (st_rounds s1) h r coll))
+                  (if kind =? KPrevote then WPV h r coll else WPC h r coll) in
   if kind =? KPrevote then
     if vid =? ViewIDNextRound then check_prevote_shift s2 else Ok s2
   else
@@ -543,7 +558,8 @@ Definition handle_future_votes (kind : N) (s : kstate) (m : vmsg) : res (kstate 
         let coll : sparse_coll := (vm_pkh m, map (fun x => (fst x, as_sparse (snd x))) full') in
         let rs := if kind =? KPrevote then rs_overwrite_pv (st_rounds s) (vm_h m) (vm_r m) coll
                   else rs_overwrite_pc (st_rounds s) (vm_h m) (vm_r m) coll in
-        Ok (set_rounds s rs, HandleVoteProofsFutureVerified)
+        Ok (log_w (set_rounds s rs) (if kind =? KPrevote then WPV (vm_h m) (vm_r m) coll else WPC (vm_h m) (vm_r m) coll),
+            HandleVoteProofsFutureVerified)
       end
   end.
 
@@ -633,20 +649,9 @@ Definition init_view (h r : N) (vs : valset) : view :=
 
 Definition init_state (init_h : N) (vs : valset) : kstate :=
   mk_k init_h vs zero_view (init_view init_h 0 vs) (init_view init_h 1 vs) None
-       (init_h, 0, 0, 0) [] [] [] [(vs_pkh vs, vs_keys vs)].
+       (init_h, 0, 0, 0) [] [] [] [(vs_pkh vs, vs_keys vs)] [WNhr (init_h, 0, 0, 0); WNhr (init_h, 0, 0, 0)].
 
 (** * Operations and runs *)
-Inductive op :=
-| OpPH (p : ph)
-| OpPrevote (m : vmsg)
-| OpPrecommit (m : vmsg).
-
-Definition step (s : kstate) (o : op) : res (kstate * N) :=
-  match o with
-  | OpPH p => handle_ph s p
-  | OpPrevote m => handle_votes KPrevote s m
-  | OpPrecommit m => handle_votes KPrecommit s m
-  end.
 
 (** * Admissibility of a vote message (used to state C05's no-op clause and by its monitor) *)
 Definition sig_admissible (keys : list N) (kind h r : N) (t : bytes) (ss : ssig) : bool :=
@@ -674,3 +679,161 @@ Definition keys_for (s : kstate) (m : vmsg) : list N :=
   | Panic _ => []
   end.
 
+
+(** * Crash and restart (C10): NewKernel on existing stores *)
+Record stores := mk_stores {
+  sr_nhr : N * N * N * N;
+  sr_hdrs : list (N * (hdr * cproof));
+  sr_rounds : list (N * N * rentry)
+}.
+
+Definition stores_of (s : kstate) : stores := mk_stores (st_nhr s) (st_hdrs s) (st_rounds s).
+
+Definition apply_wr (st : stores) (w : wr) : stores :=
+  match w with
+  | WNhr x => mk_stores x (sr_hdrs st) (sr_rounds st)
+  | WHdr h x => mk_stores (sr_nhr st) (hstore_set (sr_hdrs st) h x) (sr_rounds st)
+  | WPH p => mk_stores (sr_nhr st) (sr_hdrs st) (rs_save_ph (sr_rounds st) p)
+  | WPV h r c => mk_stores (sr_nhr st) (sr_hdrs st) (rs_overwrite_pv (sr_rounds st) h r c)
+  | WPC h r c => mk_stores (sr_nhr st) (sr_hdrs st) (rs_overwrite_pc (sr_rounds st) h r c)
+  end.
+
+(** SparseSignatureCollection.ToFull*ProofMap: panics (BUG) on an empty signature list or on a
+    stored signature that does not verify. *)
+Fixpoint to_full_entries (kind h r : N) (keys : list N) (entries : list (bytes * list ssig)) : res pmap :=
+  match entries with
+  | [] => Ok []
+  | (t, sigs) :: rest =>
+      match sigs with
+      | [] => Panic "toFullProofMap: BUG: saw len(sparseSigs) == 0"
+      | _ =>
+          let '(p, allv, inc) := merge_sparse kind h r t keys [] sigs in
+          if allv && inc then bind (to_full_entries kind h r keys rest) (fun m => Ok (pm_set m t p))
+          else Panic "toFullProofMap: BUG: invalid result after merging signatures"
+      end
+  end.
+
+Definition to_full_map (kind h r : N) (keys : list N) (c : option sparse_coll) : res pmap :=
+  match c with
+  | None => Ok []
+  | Some (_, entries) =>
+      match keys, entries with
+      | [], _ :: _ => Panic "NewSimpleCommonMessageSignatureProof: no candidate keys"
+      | _, _ => to_full_entries kind h r keys entries
+      end
+  end.
+
+(** loadInitialView *)
+Definition load_initial_view (rs : list (N * N * rentry)) (h r : N) (vs : valset) : res view :=
+  let e := rs_entry rs h r in
+  bind (to_full_map KPrevote h r (vs_keys vs) (re_pv e)) (fun pv =>
+  bind (to_full_map KPrecommit h r (vs_keys vs) (re_pc e)) (fun pc =>
+  let sm0 := mk_sum (sum_pows (vs_pows vs)) 0 0 [] [] [] [] in
+  let sm := sum_set_precommits (sum_set_prevotes sm0 (vs_pows vs) pv) (vs_pows vs) pc in
+  Ok (mk_view h r vs (re_phs e) pv pc empty_cproof sm 0))).
+
+Definition hdr_get (l : list (N * (hdr * cproof))) (h : N) : option (hdr * cproof) :=
+  match find (fun e => fst e =? h) l with Some (_, x) => Some x | None => None end.
+
+(** the block with the highest precommit power in the committing view *)
+Definition max_power_hash (pows : list N) (pm : pmap) : bytes :=
+  fst (fold_left (fun acc e => let bp := proof_power pows (snd e) in
+                               if snd acc <? bp then (fst e, bp) else acc) pm ([], 0)).
+
+Definition with_pcp (v : view) (x : cproof) := mk_view (v_h v) (v_r v) (v_vals v) (v_phs v) (v_pv v) (v_pc v) x (v_sum v) (v_ver v).
+
+(** recheckViewShifts: at most one of the three shifts *)
+Definition recheck_view_shifts (s : kstate) : res kstate :=
+  bind (check_voting_precommit_shift s) (fun s1 =>
+  if negb ((v_h (k_vot s1) =? v_h (k_vot s)) && (v_r (k_vot s1) =? v_r (k_vot s))) then Ok s1 else
+  bind (check_next_round_precommit_shift s1) (fun s2 =>
+  if negb ((v_h (k_vot s2) =? v_h (k_vot s)) && (v_r (k_vot s2) =? v_r (k_vot s))) then Ok s2 else
+  check_prevote_shift s2)).
+
+(** NewKernel.  A returned error (not a panic) is [Panic "error: ..."] as well: both mean the
+    engine does not come up. *)
+Definition restart (ih : N) (ivs : valset) (st : stores) (vals : list (bytes * list N)) (log : list wr) : res kstate :=
+  let '(vh0, vr0, ch0, cr0) := sr_nhr st in
+  let uninit := vh0 =? 0 in
+  let '(vh, vr, ch, cr) := if uninit then (ih, 0, 0, 0) else (vh0, vr0, ch0, cr0) in
+  let log1 := if uninit then log ++ [WNhr (ih, 0, 0, 0)] else log in
+  let e := rs_entry (sr_rounds st) ch cr in
+  let committing_proof :=
+    match rs_get (sr_rounds st) ch cr with
+    | Some e => match re_pc e with
+                | Some (pkh, entries) => mk_cproof cr pkh entries
+                | None => mk_cproof cr [] []
+                end
+    | None => mk_cproof 0 [] []
+    end in
+  bind
+    (if ih <=? ch then
+       bind (if ch =? ih then Ok ivs
+             else match hdr_get (sr_hdrs st) (ch - 1) with
+                  | Some (x, _) => Ok (hd_next x)
+                  | None => Panic "loadInitialCommittingView: committed header below the committing height is missing"
+                  end) (fun vs =>
+       bind (load_initial_view (sr_rounds st) ch cr vs) (fun v0 =>
+       match v_pc v0 with
+       | [] => Panic "loadInitialCommittingView: BUG: loading commit view from disk without any precommits"
+       | _ =>
+         bind (if ih <? ch then
+                 match hdr_get (sr_hdrs st) (ch - 1) with
+                 | Some (_, cp) => Ok cp
+                 | None => Panic "error: failed to load committed header for previous commit proof"
+                 end
+               else Ok empty_cproof) (fun pcp =>
+         let v := bump (with_pcp v0 pcp) in
+         match hdr_get (sr_hdrs st) ch with
+         | Some (x, _) => Ok (v, Some x)
+         | None => Panic "error: failed to load committing header"
+         end)
+       end))
+     else Ok (mk_view ch cr empty_valset [] [] [] empty_cproof new_summary 0, None)) (fun cc =>
+  let '(com, chdr) := cc in
+  bind (if vh =? ih then Ok ivs
+        else match chdr with
+             | Some x => match vs_keys (hd_next x) with
+                         | [] => Panic "loadInitialVotingView: BUG: no validators available"
+                         | _ => Ok (hd_next x)
+                         end
+             | None => Panic "loadInitialVotingView: BUG: no validators available"
+             end) (fun vs =>
+  bind (load_initial_view (sr_rounds st) vh vr vs) (fun vot0 =>
+  bind (load_initial_view (sr_rounds st) vh (wrap32 (vr + 1)) vs) (fun nxt0 =>
+  let vot := bump (with_pcp vot0 committing_proof) in
+  let nxt := bump (with_pcp nxt0 committing_proof) in
+  let s0 := mk_k ih ivs com vot nxt chdr (if uninit then (ih, 0, 0, 0) else sr_nhr st) (sr_hdrs st) (sr_rounds st) [] vals log1 in
+  bind (recheck_view_shifts s0) (fun s1 => Ok (update_observers s1)))))).
+
+(** * Operations and runs *)
+Inductive op :=
+| OpPH (p : ph)
+| OpPrevote (m : vmsg)
+| OpPrecommit (m : vmsg).
+
+Definition step (s : kstate) (o : op) : res (kstate * N) :=
+  match o with
+  | OpPH p => handle_ph s p
+  | OpPrevote m => handle_votes KPrevote s m
+  | OpPrecommit m => handle_votes KPrecommit s m
+  end.
+
+(** An operation with a crash: only the first [k] store writes of the operation land, then the
+    process stops and the mirror is started again on the stores as they are. *)
+Inductive xop :=
+| XOp (o : op)
+| XCrash (k : nat) (o : op)
+| XRestart.
+
+Definition xstep (s : kstate) (x : xop) : res (kstate * N) :=
+  match x with
+  | XOp o => step s o
+  | XRestart =>
+      bind (restart (k_init_h s) (k_init_vs s) (stores_of s) (st_vals s) (st_log s)) (fun s' => Ok (s', 0))
+  | XCrash k o =>
+      bind (step s o) (fun sr =>
+      let new := firstn k (skipn (List.length (st_log s)) (st_log (fst sr))) in
+      let st := fold_left apply_wr new (stores_of s) in
+      bind (restart (k_init_h s) (k_init_vs s) st (st_vals s) (st_log s ++ new)) (fun s' => Ok (s', snd sr)))
+  end.
